@@ -6,6 +6,7 @@ package elastic
 // (engine in zz_verif_c10srv.go). Requests of the probe: GET / (primary), GET /_aliases (secondary).
 
 import (
+	"strings"
 	"fmt"
 	"net"
 	"time"
@@ -102,7 +103,7 @@ func verifC10Elastic(c *drv.Ctx) {
 		fmt.Sprintf("F = %v (quick: Content-Length only; thorough: Content-Length, chunked, delimited by close); no other restriction of the cross product in either tier. ", frames) +
 		"Oracle (own strict JSON reader): record required iff the answer to GET / is not a fault, not the self-redirect, and its body (none for 204) has an object as first JSON value; object + garbage = either; otherwise forbidden; " +
 		"record proto/host = probed scheme/ip:port, info reproduces the served object, a failed or stalled /_aliases changes nothing; duration <= 2 x timeout + 2 s, hard cap 10 s = hang. " +
-		"A failing script is re-run once (decision failures with a 3 s timeout) and reported only if it fails again. non-trivial = every script (each is a distinct server behaviour)"
+		"Plus every script whose primary (or, after a good primary, secondary) request stalls, run with an 8 s timeout and the scan context cancelled after 300 ms: Scan must return within 3 s. A failing script is re-run once (decision failures with a 3 s timeout) and reported only if it fails again. non-trivial = every script (each is a distinct server behaviour)"
 	c10Bodies["objidx"] = struct{ data, class string }{`{"idx":{"aliases":{}}}`, "object"}
 	var cases []*c10case
 	idx := 0
@@ -112,6 +113,24 @@ func verifC10Elastic(c *drv.Ctx) {
 				idx++
 				if c.Mine(idx) {
 					cases = append(cases, &c10case{Scanner: "elastic", Idx: idx, Scheme: scheme, Prim: prim, Sec: map[string]string{"aliases": sec}})
+				}
+			}
+		}
+	}
+	// cancellation while a request is stalled: the probe must end promptly (Ctrl-C during an application scan)
+	for _, scheme := range []string{"http", "https"} {
+		for _, prim := range c10primaries(frames, scheme == "https") {
+			stalled := strings.HasPrefix(prim.Fault, "stall") || prim.Fault == "tls-stall" || prim.Body == "endless"
+			for _, sec := range []string{"ok", "stall"} {
+				if !stalled && !(sec == "stall" && prim.Fault == "" && prim.Status == 200 && prim.Body == "obj0" && prim.CT == "json") {
+					continue
+				}
+				if stalled && sec == "stall" {
+					continue
+				}
+				idx++
+				if c.Mine(idx) {
+					cases = append(cases, &c10case{Scanner: "elastic", Idx: idx, Scheme: scheme, Prim: prim, Sec: map[string]string{"aliases": sec}, Cancel: true})
 				}
 			}
 		}
